@@ -259,7 +259,65 @@ func (x *Exec) inputVal(st *State, name string, t types.Type) *Val {
 	return x.freshVal(st, name, t)
 }
 
+// parentCell returns the symbolic location of a local variable of an enclosing function (an Alloc cell), as seen
+// from a closure that is verified on its own: one fixed unknown reference per variable.
+func (x *Exec) parentCell(st *State, a *ssa.Alloc) *Val {
+	key := "pcell:" + cellName(a)
+	if v, ok := x.job.globals[key]; ok {
+		return v
+	}
+	t := a.Type()
+	pt := t.Underlying().(*types.Pointer)
+	ref := Sym("pcell."+sanitize(a.Parent().Name()+"#"+a.Comment+"."+a.Name()), SInt)
+	x.ctx.assumeGlobal(st, And(Gt(ref, IntLit(0)), Lt(ref, x.job.alloc0)))
+	var v *Val
+	if _, isStruct := pt.Elem().Underlying().(*types.Struct); isStruct {
+		v = &Val{T: ref, Typ: t}
+	} else {
+		v = &Val{Typ: t, Ptr: &Pointer{kind: pkCell, ref: ref, objT: pt.Elem(), cell: cellName(a)}}
+		// a variable that holds a function literal assigned exactly once: the closure is known
+		if _, isSig := pt.Elem().Underlying().(*types.Signature); isSig {
+			if mc := uniqueClosureStore(a); mc != nil {
+				clo := &Closure{Fn: mc.Fn.(*ssa.Function)}
+				for _, b := range mc.Bindings {
+					if ba, ok := b.(*ssa.Alloc); ok {
+						clo.Bindings = append(clo.Bindings, x.parentCell(st, ba))
+					} else {
+						clo = nil
+						break
+					}
+				}
+				if clo != nil {
+					x.job.special[fmt.Sprintf("%s@%d", cellName(a), ref.id)] = &Val{Typ: pt.Elem(), Clo: clo}
+				}
+			}
+		}
+	}
+	x.job.globals[key] = v
+	return v
+}
+
+func uniqueClosureStore(a *ssa.Alloc) *ssa.MakeClosure {
+	var found *ssa.MakeClosure
+	n := 0
+	for _, ref := range *a.Referrers() {
+		if st, ok := ref.(*ssa.Store); ok && st.Addr == ssa.Value(a) {
+			n++
+			if mc, ok := st.Val.(*ssa.MakeClosure); ok {
+				found = mc
+			}
+		}
+	}
+	if n == 1 {
+		return found
+	}
+	return nil
+}
+
 func (x *Exec) freeVarInput(st *State, fv *ssa.FreeVar) *Val {
+	if a := x.prog.resolveFreeVar(fv); a != nil {
+		return x.parentCell(st, a)
+	}
 	t := fv.Type()
 	pt := t.Underlying().(*types.Pointer)
 	if _, isStruct := pt.Elem().Underlying().(*types.Struct); isStruct {
@@ -268,9 +326,6 @@ func (x *Exec) freeVarInput(st *State, fv *ssa.FreeVar) *Val {
 		return v
 	}
 	name := "cell:free:" + fv.Name()
-	if a := x.prog.resolveFreeVar(fv); a != nil {
-		name = cellName(a)
-	}
 	ref := x.freshVal(st, "free."+fv.Name(), t)
 	x.ctx.assume(st, Neq(ref.T, IntLit(0)))
 	return &Val{Typ: t, Ptr: &Pointer{kind: pkCell, ref: ref.T, objT: pt.Elem(), cell: name}}
